@@ -61,13 +61,15 @@ Proof.
   intros Hm s. apply (step_hist H s OReopen). apply (reachable_inv H). apply reach; auto.
 Qed.
 
-(* no Close/OpenWith in the execution: every BlRoot is the Merkle root over the earlier Alh values *)
-Lemma blroot_partial c ops k r : 0 < c_maxactive c -> existsb is_reopen ops = false ->
+(* every BlRoot is the Merkle root over the earlier Alh values (or a collision of H is exhibited), in
+   every execution whose reopens find no commit-log entries beyond the committed id *)
+Lemma blroot c ops k r : (forall x, length (H x) = 32%nat) -> 0 < c_maxactive c ->
+  reopens_clean H (init H c) ops ->
   let s := run H (init H c) ops in
   1 <= k -> k <= s_committed s -> read_tx s k = Ok r -> 0 < h_bltxid (r_hdr r) ->
-  h_blroot (r_hdr r) = mth H (alhs s (h_bltxid (r_hdr r))).
+  h_blroot (r_hdr r) = mth H (alhs s (h_bltxid (r_hdr r))) \/ Collision H.
 Proof.
-  intros Hm Hno s. apply (blroot_lemma H).
+  intros HL Hm Hc s. apply (blroot_lemma H HL).
   - apply (run_inv H). apply init_inv. exact Hm.
   - apply run_inv2; auto. apply init_inv; auto. apply init_inv2; auto.
 Qed.
@@ -85,6 +87,17 @@ Qed.
 
 End T.
 
+(* the premise of blroot is satisfiable by runs that DO reopen *)
+Example reopens_clean_satisfiable :
+  let c := {| c_synced := false; c_embedded := false; c_version := 1; c_maxactive := 10; c_maxentries := 64;
+              c_maxkey := 128; c_maxval := 4096; c_ext0 := false; c_maxconc := 8 |} in
+  let H := fun b : bytes => firstn 32 (b ++ repeat 0 32) in
+  let tx k := {| p_entries := [{| k_key := [k]; k_md := []; k_val := [k] |}]; p_md := None; p_ts := 5;
+                 p_precond := None; p_cancel := false |} in
+  let ops := [OBegin 0 (tx 1) None false; OLocked 0; OReopen; OBegin 1 (tx 2) None false; OLocked 1; OReopen] in
+  reopens_clean H (init H c) ops /\ s_committed (run H (init H c) ops) = 2.
+Proof. vm_compute. repeat split; intros; reflexivity. Qed.
+
 (* premises are satisfiable: a concrete execution with three committed transactions *)
 Example premises_satisfiable :
   let c := {| c_synced := false; c_embedded := false; c_version := 1; c_maxactive := 10; c_maxentries := 64;
@@ -92,8 +105,8 @@ Example premises_satisfiable :
   let H := fun b : bytes => firstn 32 (b ++ repeat 0 32) in
   let tx k := {| p_entries := [{| k_key := [k]; k_md := []; k_val := [k] |}]; p_md := None; p_ts := 5;
                  p_precond := None; p_cancel := false |} in
-  let ops := [OBegin 0 (tx 1) None false; OLocked 0 zeros32; OBegin 1 (tx 2) None false; OLocked 1 zeros32;
-              OBegin 0 (tx 3) None false; OLocked 0 zeros32] in
+  let ops := [OBegin 0 (tx 1) None false; OLocked 0; OBegin 1 (tx 2) None false; OLocked 1;
+              OBegin 0 (tx 3) None false; OLocked 0] in
   0 < c_maxactive c /\ s_committed (run H (init H c) ops) = 3 /\
   exists r, read_tx (run H (init H c) ops) 2 = Ok r.
 Proof. vm_compute. split; [reflexivity|]. split; [reflexivity|]. eexists. reflexivity. Qed.
